@@ -2,7 +2,7 @@
 # usage: seedeval.sh <property> <n> [tier]   -- confirms seed <n> of /tmp/wt-<property> and runs the check against it
 set -u
 P=$1; N=$2; TIER=${3:-quick}
-WT=/tmp/wt-$P
+WT=${WT:-/tmp/wt-$P}
 export GOFLAGS=-mod=mod GOPROXY=off GOSUMDB=off GOTOOLCHAIN=local
 PKGS="./cache/ ./client/ ./server/ ./database/... ./updates/ ./ovsdb/ ./mapper/ ./model/"
 cd $WT || exit 2
